@@ -35,7 +35,7 @@ type program struct {
 func programs() []program {
 	single := []string{"A d", "A ./d", "R d", "R ./d", "A f", "A lf", "R f", "R lf", "L", "C"}
 	inits := [][]string{{}, {"A d"}, {"A f"}, {"A d", "A f"}}
-	fss := []string{"", "rm f", "rm f; touch f", "mv f g", "touch d/n; rm d/n"}
+	fss := []string{"", "rm f", "rm f; touch f", "mv f g", "touch d/n; rm d/n", "mv f g; rm g"}
 	var out []program
 	for _, in := range inits {
 		for i, a := range single {
